@@ -41,19 +41,19 @@ CLAIMED = {
             "Connection ID is a private strictly increasing loop counter, immutable after newConn, returned by the getter and handed unchanged to OnClose; uniqueness within one Run.",
             "2/C09", ""),
     "C10": ("control-dependence + CFG path search from the unbind edge",
-            "All clauses structural: unbind decided before any dispatch, nothing read/dispatched after it, handler exactly once iff registered, no response written by gldap.",
+            "All clauses structural: unbind decided before any dispatch, answer or further read, nothing read/dispatched after it, handler exactly once iff registered, no response written by gldap.",
             "2/C10", ""),
     "C11": ("necessary-condition check: asynchronous waker on shutdownCtx located by socket-use provenance + dominance, Stop ordering, lock scan",
-            "Necessary structural conditions only: an asynchronous read+write deadline/close of every connection's socket on shutdown exists, is armed before the first read and stays armed until the handlers have ended; every connWg.Add is matched; Stop orders Close/cancel before Wait. The time bound itself is not decided.",
+            "Necessary structural conditions only: an asynchronous read+write deadline/close of every connection's socket on shutdown exists, is armed before the first read and before any blocking socket I/O of the connection goroutine, and stays armed until the handlers have ended; every connWg.Add is matched; Stop orders Close/cancel before Wait. The time bound itself is not decided.",
             "2/C11", "Timing clause not decided."),
     "C12": ("CFG ordering rules on teardown/Run/Stop exits (must-pass-through, control dependence on the listener-closed atom)",
             "Decides the ordering/pairing quiescence depends on: Done last, every connWg.Add matched and ordered with Stop's Wait (reserved under the lock Stop holds), handlers waited for, listener released on every Run exit, Stop returns nil only after cancel+Wait, idempotent. Kernel port state is not decided.",
             "2/C12", ""),
     "C13": ("control-dependence of the StartTLS dispatch site, value provenance in StartTLS/initConn, lock-set, socket-use discipline scan",
-            "Decides that no LDAP read can interleave with the upgrade and that after it all I/O goes through the TLS reader/writer pair built from the handshaken connection; crypto/tls behaviour is trusted.",
+            "Decides that no LDAP read can interleave with the upgrade and that after it all I/O goes through the TLS reader/writer pair built from the handshaken connection, and that no deadline armed during the upgrade outlives it; crypto/tls behaviour is trusted.",
             "2/C13", ""),
     "C14": ("BER tree grammar of every control encoder (all paths) against RFC 4511 / RFC 2696 / draft-behera-10 / draft-vchu-00; attachment position; truth table of the Behera constructor",
-            "Decides agreement of every control's encoding with the published grammars (what an independent client parses; ber.AppendChild modelled as a copy at call time), the attachment of controls in both directions, the Behera constructor's validation, and per-field encode->decode composition through a wire-tree oracle. Values are never inspected.",
+            "Decides agreement of every control's encoding with the published grammars (what an independent client parses; ber.AppendChild modelled as a copy at call time), the attachment of controls in both directions, the Behera constructor's validation, and per-field encode->decode composition through a wire-tree oracle, including that the decoder rejects no value of the field types (integer range arithmetic on its error branches). Values are never inspected.",
             "2/C14", ""),
     "C15": ("frozen field classification + must-held lock sets (with entry lock sets of private callees) + confinement to the connection goroutine + who-writes scans + closure-capture check",
             "Race freedom on the state of conn, Server, Mux, ResponseWriter and Directory under the stated goroutine structure (fields not in the table are classified from their accesses: sync type / written only during construction / always under one mutex of the struct, otherwise undecided). No schedule is explored.",
@@ -62,10 +62,10 @@ CLAIMED = {
             "Decides panic freedom (enumerated classes) for all argument values and option subsets, deterministic attribute order and paired string/byte values; the value-level inverse clauses are not decided.",
             "2/C16", ""),
     "C17": ("control-dependence of flag stores on net.Listen's error + who-writes + lock-set",
-            "Decides the only-if-bound direction for every address and schedule; kernel accept behaviour is not decided.",
+            "Decides the only-if-bound direction for every address and schedule, and that Run does not give up between Ready and the first Accept; kernel accept behaviour is not decided.",
             "2/C17", ""),
     "C18": ("listener provenance through functional-option summaries, socket-use discipline, constant/provenance checks on the test directory's tls.Config",
-            "Decides that on a TLS port the only byte source of a handler is a tls.Conn created from exactly the configured policy, and that the test directory's mTLS policy requires and verifies client certificates; crypto/tls is trusted.",
+            "Decides that on a TLS port the only byte source of a handler is a tls.Conn created from exactly the configured policy (stream provenance of every initConn call), and that the test directory's mTLS policy requires and verifies client certificates; crypto/tls is trusted.",
             "2/C18", ""),
     "C19": ("decision-table walk (engine E4) of the bind handler's CFG over canonical branch atoms, compared row by row with the reference formula",
             "Decides the if-and-only-if of the statement for every user set, DN and password (one symbolic user = existential over the list), independent of transport.",
